@@ -18,6 +18,7 @@ from . import engine as eng
 from .engine import Sym, SymBool, HarnessError, PathAbort, Infeasible, toz, rv, frac_of
 
 REL_TOL = 1e-9
+ABS_TOL = Fraction(1, 10 ** 9)  # symbolic equalities: |a-b| <= 1e-9 (two float evaluations of one real expression may differ by an ulp)
 MARGIN = Fraction(1, 64)
 
 
@@ -385,7 +386,8 @@ class SymCtx(BaseCtx):
             return self.check(label, False, (detail or "") + " [finite vs infinite]")
         za, zb = toz(a), toz(b)
         d = za - zb
-        return self.check(label, za == zb, detail, margin=z3.Or(d >= rv(MARGIN), d <= -rv(MARGIN)))
+        tol = rv(ABS_TOL)
+        return self.check(label, z3.And(d <= tol, d >= -tol), detail, margin=z3.Or(d >= rv(MARGIN), d <= -rv(MARGIN)))
 
     def check_ge(self, label, a, b, detail=None):
         """a >= b"""
